@@ -731,6 +731,7 @@ func SExt(a *Term, w int) *Term {
 	}
 	return mk(&Term{Op: OSext, S: BV(w), Args: []*Term{a}, I1: w - a.S.W})
 }
+
 var ratZero = new(big.Rat)
 
 func Concat(a, b *Term) *Term {
@@ -1248,6 +1249,17 @@ func BuildQuery(assumps []*Term, goal *Term, wantModel bool, extra []*Term) stri
 	}
 	for _, d := range p.defs {
 		sb.WriteString(d + "\n")
+	}
+	// inverse-function axioms for injective uninterpreted encodings
+	have := map[string]bool{}
+	for _, d := range syms {
+		have[d.name] = true
+	}
+	if have["strcid"] && have["cidstr"] {
+		sb.WriteString("(assert (forall ((s!ax Str)) (= (cidstr (strcid s!ax)) s!ax)))\n")
+	}
+	if have["strid"] {
+		sb.WriteString("(declare-fun idstr ((_ BitVec 64)) Str)\n(assert (forall ((s!ax Str)) (= (idstr (strid s!ax)) s!ax)))\n")
 	}
 	for _, a := range asserts {
 		sb.WriteString(a + "\n")
